@@ -19,6 +19,16 @@ package props
 //	race-api      the same kind of history through interp.Execute inside the race-built harness binary
 //	              (vcheck-race C13 --replay <case> as a sub-process; the children of this check run from
 //	              the plain binary).
+//	early-api/-cli  deterministic family (real /bin/sh): a `print | cmd` stream still holds buffered
+//	              data when it is closed or the run ends, and the command has already closed its
+//	              stdin (or exited); close() status, the command's result file read right after
+//	              close() / after the run, its output on the shared stdout, the end of the run.
+//	fixed-api/-cli  hand-written real-shell scenarios with exact expected bytes for every destination
+//	              (command writing to stderr, /dev/stdout and - mixed with system(), ORS/OFS variations,
+//	              16 destinations at once in default/CSV/TSV output mode with LF/CRLF).
+//
+// A share of the histories (hist-*, fault-*, sigpipe) runs in CSV/TSV output mode, in CRLF newline
+// output mode and with the stream names /dev/stdout, - and /dev/stderr (c13dst.Params CSV/CRLF/Names).
 
 import (
 	"bufio"
@@ -60,6 +70,10 @@ type c13Case struct {
 	ReadK  int            `json:"reader_reads"`    // sigpipe: bytes the reader takes before it closes (-1: closed before start)
 	Reps   int            `json:"repetitions"`     // schedule-dependent cases: how often the run is repeated
 	Race   bool           `json:"race_detector"`   // run needs the -race binaries
+	// early-api / early-cli: a command that gives up its standard input before the stream is closed;
+	// fixed-api / fixed-cli: a hand-written real-shell scenario
+	Early *c13dst.EarlyClose `json:"early_close,omitempty"`
+	Fixed *c13dst.Fixed      `json:"fixed,omitempty"`
 }
 
 type c13Finding struct {
@@ -114,6 +128,10 @@ func c13Judge(h *c13dst.History, e *c13dst.Expect, o *c13Obs) []c13Finding {
 	// shared standard output
 	if m := c13dst.CheckStdout(e, o.Stdout); m != nil {
 		add("stdout", m.What, "stdout: "+m.Detail, m.Expected, m.Observed)
+	}
+	// lines written to /dev/stderr
+	if m := c13dst.CheckStderr(e, []byte(o.Stderr)); m != "" {
+		add("stderr", "content", m, "", "")
 	}
 	// every file of the work directory
 	var names []string
@@ -252,7 +270,7 @@ func c13ReadDir(dir string) map[string][]byte {
 
 // c13RunAPI executes the history's program in-process. wrap, if set, replaces the output
 // writer (fault enumeration); otherwise outKind selects it.
-func c13RunAPI(dir string, h *c13dst.History, src string, outKind string, wrap io.Writer) (*c13Obs, error) {
+func c13RunAPI(dir string, h *c13dst.History, src string, outKind string, wrap io.Writer, mods ...func(*interp.Config)) (*c13Obs, error) {
 	o := &c13Obs{Recs: map[int]int{}, Snaps: map[int]c13Snap{}}
 	c13Prepare(dir, h)
 	funcs := map[string]any{
@@ -287,6 +305,20 @@ func c13RunAPI(dir string, h *c13dst.History, src string, outKind string, wrap i
 	cfg := &interp.Config{
 		Stdin: stdin, Error: stderr, Funcs: funcs, Vars: []string{"W", dir},
 		ShellCommand: []string{filepath.Join(core.BuildDir, "vsh")}, Environ: []string{},
+	}
+	if h.ModeVia != "begin" {
+		switch h.Mode {
+		case c13dst.ModeCSV:
+			cfg.OutputMode = interp.CSVMode
+		case c13dst.ModeTSV:
+			cfg.OutputMode = interp.TSVMode
+		}
+	}
+	if h.CRLF {
+		cfg.NewlineOutput = interp.CRLFNewlineMode
+	}
+	for _, m := range mods {
+		m(cfg)
 	}
 	var collect func() []byte
 	switch {
@@ -346,6 +378,10 @@ type c13CLIOpts struct {
 	stdout   string   // "file" | "pipe"
 	readK    int      // pipe: -2 read everything, -1 reader closed before start, k>=0 read k bytes then close
 	pipeSize int      // F_SETPIPE_SZ for the stdout pipe (0: default)
+	// slowTail > 0: the reader of the stdout pipe takes everything up to the last slowTail of
+	// expectTotal bytes at full speed and the rest slowly (4 KiB, then 25 ms pause).  An injected
+	// delay, never a verdict.
+	slowTail, expectTotal int
 }
 
 func c13RunCLI(dir string, h *c13dst.History, src string, opt c13CLIOpts) (*c13Obs, string, error) {
@@ -359,7 +395,14 @@ func c13RunCLI(dir string, h *c13dst.History, src string, opt c13CLIOpts) (*c13O
 	if bin == "" {
 		bin = filepath.Join(core.BuildDir, "goawk")
 	}
-	args := append(append([]string{}, opt.prefix...), bin, "-v", "W="+dir, "-v", "VSH="+filepath.Join(core.BuildDir, "vsh"), "-f", pf)
+	args := append(append([]string{}, opt.prefix...), bin, "-v", "W="+dir, "-v", "VSH="+filepath.Join(core.BuildDir, "vsh"))
+	if h.Mode != c13dst.ModeNone && h.ModeVia != "begin" {
+		args = append(args, "-o", h.Mode)
+	}
+	if h.CRLF {
+		args = append(args, "-N", "crlf")
+	}
+	args = append(args, "-f", pf)
 	ctx, cancel := context.WithTimeout(context.Background(), 10*time.Minute)
 	defer cancel()
 	cmd := exec.CommandContext(ctx, args[0], args[1:]...)
@@ -398,6 +441,23 @@ func c13RunCLI(dir string, h *c13dst.History, src string, opt c13CLIOpts) (*c13O
 				n, _ := io.ReadFull(r, b)
 				_ = r.Close()
 				done <- b[:n]
+			}()
+		case opt.slowTail > 0:
+			go func() {
+				var all []byte
+				buf := make([]byte, 4096)
+				for {
+					n, err := r.Read(buf)
+					all = append(all, buf[:n]...)
+					if err != nil {
+						break
+					}
+					if len(all) > opt.expectTotal-opt.slowTail {
+						time.Sleep(c13SlowPause)
+					}
+				}
+				_ = r.Close()
+				done <- all
 			}()
 		default:
 			go func() { b, _ := io.ReadAll(r); _ = r.Close(); done <- b }()
@@ -450,7 +510,7 @@ func c13RunCLI(dir string, h *c13dst.History, src string, opt c13CLIOpts) (*c13O
 	}
 	o.Files = c13ReadDir(dir)
 	for _, line := range strings.Split(string(o.Files["results"]), "\n") {
-		id, v, ok := strings.Cut(line, "=")
+		id, v, ok := strings.Cut(strings.TrimRight(line, "\r"), "=") // "\r": CRLF newline output mode
 		if !ok {
 			continue
 		}
@@ -526,6 +586,29 @@ func (f *c13FlushRec) Flush() error {
 		f.errTo = append(f.errTo, c13Caller())
 	}
 	return err
+}
+
+// c13SlowPause is the pause of the slow consumers per 4 KiB taken: the last 100 KB of standard
+// output take about 0.6 s, more than the 250 ms goawk gives os/exec to finish copying a child's
+// output after the child has exited.
+const c13SlowPause = 25 * time.Millisecond
+
+// c13SlowWriter is a Config.Output that accepts the head of the output at full speed and the
+// last `tail` of `total` bytes slowly (it sleeps in Write; it has no ReadFrom).  Nothing fails.
+type c13SlowWriter struct {
+	total, tail int
+	got         []byte
+}
+
+func (w *c13SlowWriter) Write(p []byte) (int, error) {
+	for off := 0; off < len(p); off += 4096 {
+		end := c13Min(off+4096, len(p))
+		w.got = append(w.got, p[off:end]...)
+		if len(w.got) > w.total-w.tail {
+			time.Sleep(c13SlowPause)
+		}
+	}
+	return len(p), nil
 }
 
 // ---- race log ------------------------------------------------------------------------------
@@ -630,6 +713,31 @@ func c13CoverHistory(c *core.Ctx, cs *c13Case, e *c13dst.Expect) {
 			break
 		}
 		c.Cover("op_kinds", strings.Trim(fmt.Sprintf("%s:%s:%s:%s", op.Kind, op.Dest.Kind, op.Redir, op.Form), ":"))
+		if op.Name != "" {
+			c.Cover("op_kinds", fmt.Sprintf("print:stdout-by-name:%s:%s", op.Name, op.Redir))
+		}
+	}
+	// CSV/TSV output mode: histories, rows, and the histories in which rows written by print go to
+	// two or more distinct destinations (where a row can reach the wrong one)
+	if len(e.CSVRowDests) > 0 {
+		c.Count("csv_mode_histories", 1)
+		rows := 0
+		for k, n := range e.CSVRowDests {
+			rows += n
+			c.Cover("csv_row_destinations", cs.Mon+":"+strings.TrimRight(k, "0123456789"))
+		}
+		c.Count("csv_rows_modelled", rows)
+		if len(e.CSVRowDests) >= 2 {
+			c.Count("csv_mode_histories_multi_destination", 1)
+		}
+		c.Max("max_csv_destinations_one_history", int64(len(e.CSVRowDests)))
+		c.Cover("csv_mode_set_by", cs.Mon+":"+core.JoinNonEmpty("+", h.Mode, h.ModeVia))
+	}
+	if h.CRLF {
+		c.Count("crlf_mode_histories", 1)
+	}
+	if len(e.Stderr) > 0 {
+		c.Count("histories_writing_dev_stderr", 1)
 	}
 	for _, ev := range e.Events {
 		c.Cover("model_events", ev)
@@ -713,8 +821,24 @@ func c13History(c *core.Ctx, cs c13Case) {
 			if c13RaceBuild {
 				raceLog = strings.TrimPrefix(c13OwnRaceLog(), before)
 			}
-		case "hist-cli", "race-cli":
+		case "slow-api":
+			total := 0
+			for _, b := range e.Prods {
+				total += len(b)
+			}
+			sw := &c13SlowWriter{total: total, tail: c13dst.SlowTail}
+			o, err = c13RunAPI(dir, h, src, "", sw)
+			if o != nil {
+				o.Stdout = sw.got
+			}
+		case "hist-cli", "race-cli", "slow-cli":
 			opt := c13CLIOpts{stdout: cs.Out, readK: -2}
+			if cs.Mon == "slow-cli" {
+				opt.pipeSize, opt.slowTail = 4096, c13dst.SlowTail
+				for _, b := range e.Prods {
+					opt.expectTotal += len(b)
+				}
+			}
 			if cs.Mon == "race-cli" {
 				opt.bin = filepath.Join(core.BuildDir, "goawk-race")
 				opt.env = []string{"GORACE=halt_on_error=0 exitcode=0 log_path=" + filepath.Join(dir, "race")}
@@ -748,10 +872,15 @@ func c13History(c *core.Ctx, cs c13Case) {
 			c.Inconclusive(cs.Mon + ":" + err.Error())
 			return
 		}
-		if why := c13Environment(o.Stderr); why != "" {
+		// slow consumers: an expired WaitDelay is the very thing under observation there, not the machine
+		slow := cs.Mon == "slow-cli" || cs.Mon == "slow-api"
+		if why := c13Environment(o.Stderr); why != "" && !(slow && why == "waitdelay-expired") {
 			// the machine, not goawk: counted and not judged (see notes, limits)
 			c.Count("cases_not_judged:"+why, 1)
 			continue
+		}
+		if slow && rep == 0 && !c.Replay {
+			c.Count("slow_consumer_runs:"+cs.Mon, 1)
 		}
 		c.Count("stdout_bytes_compared", len(o.Stdout))
 		c.Count("snapshots_taken", len(o.Snaps))
@@ -767,13 +896,45 @@ func c13History(c *core.Ctx, cs c13Case) {
 		if len(fs) > 0 && exposedWhy == "" && hasChild && !c.Replay {
 			for again := 0; again < 2; again++ {
 				o2, _, err2 := once()
-				if err2 != nil || c13Environment(o2.Stderr) != "" || len(c13JudgeAny(h, exps, o2)) == 0 {
+				if err2 != nil || (c13Environment(o2.Stderr) != "" && !slow) || len(c13JudgeAny(h, exps, o2)) == 0 {
 					c.Count("findings_not_reproduced", 1)
 					c.Note("not reproduced on re-run (%s %s): %s", cs.Mon, cs.Out, core.Clip(fs[0].summary, 300))
 					fs = nil
 					break
 				}
 			}
+		}
+		if slow && len(fs) > 0 {
+			// One cause, classified by its precondition (as the concurrent case is): whoever takes
+			// goawk's standard output is slow while os/exec still copies a child's output into
+			// goawk's output writer from a goroutine; that copy gets 250 ms (goawk: cmd.WaitDelay)
+			// after the child's exit, then the pipe is closed and the rest is lost.  goawk's message
+			// 'WaitDelay expired' is NOT a reliable signature: os/exec reports it only when the
+			// child exited with status 0, and closeAll drops it.  Symptoms: bytes of the child missing
+			// on stdout, system()/close() returning -1.  API: any Config.Output that is not an
+			// *os.File.  CLI: goawk's own buffered stdout (repaired in 085e156: children get
+			// os.Stdout itself).  Every other kind of finding stays strict.
+			class := "child-output-lost:waitdelay:non-file-output"
+			if cs.Mon == "slow-cli" {
+				class = "waitdelay:own-stdout"
+			}
+			var rest []c13Finding
+			lost := 0
+			for _, f := range fs {
+				if f.kind != "stdout" && f.kind != "close-status" {
+					rest = append(rest, f)
+					continue
+				}
+				lost++
+				c.Violation("child-output-lost", class, fmt.Sprintf("[%s %s] %s — stderr: %q", cs.Mon, cs.Out, f.summary, core.Clip(o.Stderr, 200)), f.expected, f.observed, cs)
+			}
+			if lost > 0 {
+				c.Count("slow_consumer_child_output_lost:"+cs.Mon, 1)
+				if c.Replay {
+					fmt.Printf("run %d: status=%d stdout=%d bytes: child output lost (%d findings) stderr=%q\n", rep+1, o.Status, len(o.Stdout), lost, core.Clip(o.Stderr, 200))
+				}
+			}
+			fs = rest
 		}
 		c13Report(c, cs, exposedWhy, fs)
 		classes, texts := c13RaceClasses(raceLog)
@@ -1130,6 +1291,230 @@ func c13Sigpipe(c *core.Ctx, cs c13Case) {
 	}
 }
 
+// ---- commands that give up their standard input early; fixed real-shell scenarios ------------
+
+func c13RealShell(cfg *interp.Config) {
+	cfg.ShellCommand = nil // the default: /bin/sh -c
+	cfg.Environ = []string{"PATH", "/usr/bin:/bin"}
+}
+
+// c13RunPlain runs a hand-written program (API or CLI by monitor name) with the real shell.
+func c13RunPlain(c *core.Ctx, cs c13Case, src, mode string, crlf bool) (*c13Obs, error) {
+	dir := c13CaseDir(c)
+	defer os.RemoveAll(dir)
+	h := &c13dst.History{Mode: mode, ModeVia: "config", CRLF: crlf}
+	var o *c13Obs
+	var err error
+	if strings.HasSuffix(cs.Mon, "-cli") {
+		o, _, err = c13RunCLI(dir, h, src, c13CLIOpts{stdout: cs.Out, readK: -2})
+	} else {
+		o, err = c13RunAPI(dir, h, src, cs.Out, nil, c13RealShell)
+	}
+	c.Eval(1)
+	return o, err
+}
+
+func c13JudgeEnd(want c13dst.End, o *c13Obs) []c13Finding {
+	var fs []c13Finding
+	switch want.Kind {
+	case "normal", "exit":
+		if o.Failed || (o.ErrText != "" && !o.CLI) {
+			fs = append(fs, c13Finding{"end", "unexpected-error", fmt.Sprintf("run ended with an error (%s) where the program ends by %s", core.Clip(o.ErrText, 200), want.Kind), "no error", o.ErrText + "\nstderr: " + core.Clip(o.Stderr, 1500)})
+		} else if o.Status != want.Status {
+			fs = append(fs, c13Finding{"end", "status", fmt.Sprintf("exit status %d, the program ends by %s with status %d; stderr: %q", o.Status, want.Kind, want.Status, core.Clip(o.Stderr, 300)), fmt.Sprint(want.Status), fmt.Sprint(o.Status)})
+		}
+	case "error":
+		if o.CLI && o.Status == 0 || !o.CLI && !o.Failed {
+			fs = append(fs, c13Finding{"end", "error-expected", "run succeeded although the program ends with a run-time error", "error", "success"})
+		}
+	}
+	return fs
+}
+
+// c13Early runs one scenario of the early-stdin-close family and judges exactly what the
+// property states: close() reports the command's exit status; by the time close() has returned
+// (or the run has returned) the command has finished its work (RESULT complete); what the
+// command wrote to the shared stdout is there, in causal order; the run ends the way the program
+// ends.  Whether the buffered rows reach a command that no longer reads is not judged.
+func c13Early(c *core.Ctx, cs c13Case) {
+	s := cs.Early
+	src := s.Render()
+	x := s.Expect()
+	judge := func(o *c13Obs) (fs []c13Finding, skip string) {
+		if o.Crash != "" {
+			return []c13Finding{{"crash", "crash", "goawk crashed: " + firstLineOf(o.Crash), "", core.Clip(o.Crash, 1500)}}, ""
+		}
+		res := map[string]string{}
+		for _, line := range strings.Split(string(o.Files["results"]), "\n") {
+			if k, v, ok := strings.Cut(line, "="); ok {
+				res[k] = v
+			}
+		}
+		if res["hs"] == "timeout" {
+			return nil, "handshake-watchdog"
+		}
+		if why := c13Environment(o.Stderr); why != "" {
+			return nil, why
+		}
+		variant := s.Stdin + ":" + s.Ending
+		if s.Ending == "close" {
+			r, ok := res["close"]
+			switch {
+			case !ok:
+				fs = append(fs, c13Finding{"cmd-early-close", "close-status:missing", fmt.Sprintf("[%s] close(cmd) left no result: the program did not get past it; stderr: %q", variant, core.Clip(o.Stderr, 300)), fmt.Sprint(x.CloseStatus), "nothing"})
+			case r != fmt.Sprint(x.CloseStatus):
+				fs = append(fs, c13Finding{"cmd-early-close", "close-status:" + s.Stdin, fmt.Sprintf("[%s] close(cmd) returned %s, the command exits with %d (its stdin was given up before the final flush); stderr: %q", variant, r, x.CloseStatus, core.Clip(o.Stderr, 300)), fmt.Sprint(x.CloseStatus), r})
+			}
+			if ok {
+				c.Count("cmd_early_close_statuses_judged", 1)
+				got := ""
+				if res["g1"] == "1" {
+					got += res["l1"] + "\n"
+				}
+				if res["g2"] == "1" {
+					got += res["l2"] + "\n"
+				}
+				if got != x.Result {
+					fs = append(fs, c13Finding{"cmd-early-close", "not-waited:close:" + s.Stdin, fmt.Sprintf("[%s] right after close(cmd) returned, the command's result file holds %q (getline results %s, %s): close() did not wait for the command to finish", variant, got, res["g1"], res["g2"]), x.Result, got})
+				}
+				c.Count("cmd_early_result_read_after_close", 1)
+			}
+		}
+		// observed by the harness as soon as the run had returned
+		if got := string(o.Files["RESULT"]); got != x.Result {
+			cls := "not-waited:end-of-run:" + s.Stdin
+			fs = append(fs, c13Finding{"cmd-early-close", cls, fmt.Sprintf("[%s] when the run had returned the command's result file held %q: the command was still running (streams open at the end of a run are closed and waited for)", variant, got), x.Result, got})
+		}
+		c.Count("cmd_early_result_read_after_run", 1)
+		if m := c13dst.CheckStdout(x.Stdout, o.Stdout); m != nil {
+			fs = append(fs, c13Finding{"cmd-early-close", "stdout:" + m.What, fmt.Sprintf("[%s] shared stdout: %s (observed %q)", variant, m.Detail, core.Clip(string(o.Stdout), 200)), m.Expected, m.Observed})
+		}
+		if x.Drain != nil && !bytes.Equal(o.Files["DRAIN"], x.Drain) {
+			fs = append(fs, c13Finding{"cmd-early-close", "delivered:drain", fmt.Sprintf("[%s] the command that reads everything received: %s", variant, c13dst.DiffBytes(x.Drain, o.Files["DRAIN"])), "", ""})
+		}
+		if x.Got != nil && !bytes.Equal(o.Files["GOT"], x.Got) {
+			fs = append(fs, c13Finding{"cmd-early-close", "delivered:first-line", fmt.Sprintf("[%s] the command that reads one line received: %s", variant, c13dst.DiffBytes(x.Got, o.Files["GOT"])), "", ""})
+		}
+		fs = append(fs, c13JudgeEnd(x.End, o)...)
+		return fs, ""
+	}
+	var fs []c13Finding
+	firstSummary := ""
+	for attempt := 0; attempt < 3; attempt++ {
+		o, err := c13RunPlain(c, cs, src, s.Mode, false)
+		if err != nil {
+			c.Inconclusive(cs.Mon + ":" + err.Error())
+			return
+		}
+		var skip string
+		fs, skip = judge(o)
+		if c.Replay {
+			fmt.Printf("run %d: status=%d failed=%v err=%q stdout=%q results=%q RESULT=%q stderr=%q findings=%d %s\n", attempt+1, o.Status, o.Failed, core.Clip(o.ErrText, 200), core.Clip(string(o.Stdout), 100), string(o.Files["results"]), string(o.Files["RESULT"]), core.Clip(o.Stderr, 300), len(fs), skip)
+		}
+		if skip == "handshake-watchdog" {
+			c.Inconclusive(cs.Mon + ": the handshake watchdog fired (the command did not create its marker within 60 s)")
+			return
+		}
+		if skip != "" {
+			c.Count("cases_not_judged:"+skip, 1)
+			return
+		}
+		if attempt == 0 && !c.Replay {
+			c.Count("cmd_early_scenarios", 1)
+			if s.Stdin == "close" || s.Stdin == "devnull" || s.Stdin == "read1" {
+				c.Count("cmd_early_stdin_close_scenarios", 1)
+			}
+			if strings.Contains(o.Stderr, "broken pipe") {
+				c.Count("cmd_early_flush_failure_seen", 1) // goawk's own message: the final flush did hit EPIPE
+			}
+			c.Cover("cmd_early_variants", cs.Mon+":"+s.Stdin+":"+s.Ending)
+			c.Cover("outputs", cs.Mon+":"+cs.Out)
+			c.NonTrivial(cs.Mon + cs.Out + fmt.Sprint(*s))
+		}
+		// Confirmation rule as for histories with children: a finding is reported only when it
+		// shows again on two immediate re-runs (a starved machine can spoil a run with children).
+		if len(fs) == 0 || c.Replay {
+			if attempt > 0 && !c.Replay {
+				c.Count("findings_not_reproduced", 1)
+				c.Note("not reproduced on re-run (%s %s): %s", cs.Mon, cs.Out, core.Clip(firstSummary, 300))
+			}
+			break
+		}
+		if attempt == 0 {
+			firstSummary = fs[0].summary
+		}
+	}
+	c13Report(c, cs, "", fs)
+}
+
+// c13FixedRun runs one hand-written real-shell scenario and compares every destination.
+func c13FixedRun(c *core.Ctx, cs c13Case) {
+	f := cs.Fixed
+	var fs []c13Finding
+	firstSummary := ""
+	for attempt := 0; attempt < 3; attempt++ {
+		o, err := c13RunPlain(c, cs, f.Prog, f.Mode, f.CRLF)
+		if err != nil {
+			c.Inconclusive(cs.Mon + ":" + err.Error())
+			return
+		}
+		if why := c13Environment(o.Stderr); why != "" {
+			c.Count("cases_not_judged:"+why, 1)
+			return
+		}
+		fs = nil
+		add := func(class, summary, exp, obs string) {
+			fs = append(fs, c13Finding{"fixed-scenario", f.Name + ":" + class, "[" + f.Name + "] " + summary, exp, obs})
+		}
+		if o.Crash != "" {
+			add("crash", "goawk crashed: "+firstLineOf(o.Crash), "", core.Clip(o.Crash, 1500))
+		}
+		if string(o.Stdout) != f.Stdout {
+			add("stdout", "stdout: "+c13dst.DiffBytes([]byte(f.Stdout), o.Stdout), f.Stdout, string(o.Stdout))
+		}
+		if m := c13dst.CheckStderr(&c13dst.Expect{Stderr: []byte(f.Stderr)}, []byte(o.Stderr)); m != "" {
+			add("stderr", m+" (stderr: "+core.Clip(o.Stderr, 300)+")", f.Stderr, o.Stderr)
+		}
+		for n, want := range f.Files {
+			got, ok := o.Files[n]
+			if !ok {
+				add("file-missing", n+" does not exist at the end of the run", want, "")
+			} else if string(got) != want {
+				add("file-content", n+": "+c13dst.DiffBytes([]byte(want), got), want, string(got))
+			}
+		}
+		for n := range o.Files {
+			if _, ok := f.Files[n]; !ok && !c13OwnFiles[n] {
+				add("file-unexpected", fmt.Sprintf("file %s (%d bytes) exists although the program never opens it", n, len(o.Files[n])), "", "")
+			}
+		}
+		if o.Failed || o.Status != 0 || (o.ErrText != "" && !o.CLI) {
+			add("end", fmt.Sprintf("status %d, error %q", o.Status, core.Clip(o.ErrText, 200)), "status 0, no error", "")
+		}
+		if c.Replay {
+			fmt.Printf("run %d: status=%d failed=%v stdout=%q stderr=%q findings=%d\n", attempt+1, o.Status, o.Failed, core.Clip(string(o.Stdout), 200), core.Clip(o.Stderr, 300), len(fs))
+		}
+		if attempt == 0 && !c.Replay {
+			c.Count("fixed_scenario_runs", 1)
+			c.Count("files_compared", len(f.Files))
+			c.Cover("fixed_scenarios", f.Name)
+			c.Cover("outputs", cs.Mon+":"+cs.Out)
+			c.NonTrivial(cs.Mon + cs.Out + f.Name)
+		}
+		if len(fs) == 0 || c.Replay {
+			if attempt > 0 && !c.Replay {
+				c.Count("findings_not_reproduced", 1)
+				c.Note("not reproduced on re-run (%s %s): %s", cs.Mon, cs.Out, core.Clip(firstSummary, 300))
+			}
+			break
+		}
+		if attempt == 0 {
+			firstSummary = fs[0].summary
+		}
+	}
+	c13Report(c, cs, "", fs)
+}
+
 // ---- fault points --------------------------------------------------------------------------
 
 // c13FaultPoints returns the failure offsets to try for a program with N bytes of stdout:
@@ -1217,6 +1602,21 @@ func c13Run(c *core.Ctx) {
 		h.CLI = cli
 		return c13Case{Mon: mon, Out: out, Hist: h, Prog: core.Clip(c13dst.Render(&h), 6000)}
 	}
+	// variant gives a share of the histories CSV/TSV output mode (i%8 = 1, 5), CRLF newline output
+	// (3, 5) and the names of the standard streams (2, 5, 6); i%8 = 7 is the concurrent case,
+	// 0 and 4 stay as they always were.
+	variant := func(p *c13dst.Params, i int) {
+		switch i % 8 {
+		case 1:
+			p.CSV = true
+		case 2, 6:
+			p.Names = true
+		case 3:
+			p.CRLF = true
+		case 5:
+			p.CSV, p.CRLF, p.Names = true, true, true
+		}
+	}
 	apiOuts := []string{"buffer", "bufio-file", "file", "pipe"}
 	children := []string{"none", "system", "system", "quiet", "quiet", "quiet"}
 	big := c13Tier(c.Tier, 200_000, 1<<20)
@@ -1231,6 +1631,7 @@ func c13Run(c *core.Ctx) {
 			p.Children = "exposed"
 			p.Tiny = out == "buffer" || out == "bufio-file"
 		}
+		variant(&p, i)
 		cs := mk("hist-api", out, p, false)
 		if p.Children == "exposed" {
 			cs.Reps = 2
@@ -1247,6 +1648,7 @@ func c13Run(c *core.Ctx) {
 		if i%8 == 7 {
 			p.Children = "exposed"
 		}
+		variant(&p, i)
 		cs := mk("hist-cli", []string{"file", "pipe"}[rng.Intn(2)], p, true)
 		c.Begin(cs)
 		c13History(c, cs)
@@ -1284,6 +1686,10 @@ func c13Run(c *core.Ctx) {
 			p.MaxSize = 70000 // the 64 KiB buffer wraps inside a print
 			p.Budget = 200000
 		}
+		if i%4 == 2 {
+			p.CSV, p.Names = true, true // rows go through the cached CSV writer; stdout also by name
+			p.CRLF = i%8 == 6
+		}
 		var cs c13Case
 		var full *c13dst.Expect
 		for try := 0; try < 20; try++ { // a program that prints something to stdout
@@ -1315,6 +1721,9 @@ func c13Run(c *core.Ctx) {
 		if i%2 == 1 {
 			p.MaxSize, p.Budget = 70000, 400000
 		}
+		if i%4 == 2 {
+			p.CSV, p.Names = true, true
+		}
 		var cs c13Case
 		var full *c13dst.Expect
 		for try := 0; try < 20; try++ {
@@ -1341,6 +1750,56 @@ func c13Run(c *core.Ctx) {
 			c13Sigpipe(c, sp)
 		}
 	}
+	// 6. commands that give up their standard input before the stream is closed (real /bin/sh):
+	// the family stdin-kind x ending x runner/output is walked systematically, the rest is drawn
+	erng := c.Rand("early")
+	stdins := []string{"close", "devnull", "read1", "exit", "drain"}
+	endings := []string{"close", "end", "exit", "error"}
+	runners := [][2]string{{"early-api", "buffer"}, {"early-api", "bufio-file"}, {"early-api", "file"}, {"early-api", "pipe"}, {"early-cli", "file"}, {"early-cli", "pipe"}}
+	for i, n := 0, per(192, 1536); i < n; i++ {
+		k := c.Batch + i*c.NBatches // global index of the scenario
+		s := &c13dst.EarlyClose{
+			Stdin: stdins[k%5], Ending: endings[(k/5)%4], Exit: []int{3, 0, 77, 1}[erng.Intn(4)], ProgExit: []int{0, 5}[erng.Intn(2)],
+			Before: 1 + erng.Intn(2), After: erng.Intn(3), Form: []string{"print", "print2", "printf"}[erng.Intn(3)],
+			Echo: erng.Intn(2) == 0, SleepMs: 50, Mode: []string{"", "", "csv", "tsv"}[erng.Intn(4)],
+		}
+		r := runners[(k+5*(k/20))%6] // every (stdin, ending) pair meets every runner within 120 scenarios
+		cs := c13Case{Mon: r[0], Out: r[1], Early: s, Prog: s.Render()}
+		c.Begin(cs)
+		c13Early(c, cs)
+		if i == 0 {
+			sample(cs, "close() status, RESULT read right after close() / after the run, shared stdout, end of run — command closed its stdin before the final flush")
+		}
+	}
+	// 8. slow consumers of standard output: a child produces ~100 KB on the shared stdout just
+	// before the run ends / the program goes on, and whoever takes goawk's standard output is
+	// slow for the last 100 KB (CLI: the reader of the stdout pipe; API: a slow Config.Output)
+	srng := c.RandGlobal("slow")
+	for k, n := 0, c13Tier(c.Tier, 18, 96)*c13Scale()/100; k < n; k++ {
+		jitter := srng.Intn(1000)
+		if !c.Mine(k) {
+			continue
+		}
+		mon := []string{"slow-cli", "slow-cli", "slow-api"}[k%3]
+		h := c13dst.SlowHistory(k/3, jitter, mon == "slow-cli")
+		cs := c13Case{Mon: mon, Out: map[string]string{"slow-cli": "pipe", "slow-api": "slow-writer"}[mon], Hist: h, Prog: core.Clip(c13dst.Render(&h), 6000)}
+		c.Begin(cs)
+		c13History(c, cs)
+	}
+	// 7. fixed real-shell scenarios on every runner/output
+	j := 0
+	for _, f := range c13dst.FixedScenarios() {
+		for _, r := range [][2]string{{"fixed-api", "buffer"}, {"fixed-api", "bufio-file"}, {"fixed-api", "file"}, {"fixed-api", "pipe"}, {"fixed-cli", "file"}, {"fixed-cli", "pipe"}} {
+			j++
+			if !c.Mine(j) {
+				continue
+			}
+			f := f
+			cs := c13Case{Mon: r[0], Out: r[1], Fixed: &f, Prog: f.Prog}
+			c.Begin(cs)
+			c13FixedRun(c, cs)
+		}
+	}
 }
 
 func c13Replay(c *core.Ctx, raw json.RawMessage) {
@@ -1349,7 +1808,17 @@ func c13Replay(c *core.Ctx, raw json.RawMessage) {
 		fmt.Println("bad case:", err)
 		return
 	}
-	fmt.Printf("monitor=%s output=%s\n--- program ---\n%s--- end ---\n", cs.Mon, cs.Out, c13dst.Render(&cs.Hist))
+	switch {
+	case cs.Early != nil:
+		fmt.Printf("monitor=%s output=%s\n--- program ---\n%s--- end ---\n", cs.Mon, cs.Out, cs.Early.Render())
+		c13Early(c, cs)
+		return
+	case cs.Fixed != nil:
+		fmt.Printf("monitor=%s output=%s mode=%q crlf=%v\n--- program ---\n%s\n--- end ---\n", cs.Mon, cs.Out, cs.Fixed.Mode, cs.Fixed.CRLF, cs.Fixed.Prog)
+		c13FixedRun(c, cs)
+		return
+	}
+	fmt.Printf("monitor=%s output=%s mode=%q(%s) crlf=%v\n--- program ---\n%s--- end ---\n", cs.Mon, cs.Out, cs.Hist.Mode, cs.Hist.ModeVia, cs.Hist.CRLF, c13dst.Render(&cs.Hist))
 	if cs.Race && cs.Mon == "hist-api" && !c13RaceBuild {
 		// the report came from the race-built harness: hand the case to it (a few tries, the
 		// schedule decides)
@@ -1361,7 +1830,7 @@ func c13Replay(c *core.Ctx, raw json.RawMessage) {
 		return
 	}
 	switch cs.Mon {
-	case "hist-api", "hist-cli", "race-cli":
+	case "hist-api", "hist-cli", "race-cli", "slow-cli", "slow-api":
 		if cs.Reps < 20 && os.Getenv("C13_KEEP_REPS") == "" && (cs.Race || c13dst.Run(&cs.Hist, c13dst.Options{}).ExposedCmd != "") {
 			cs.Reps = 20 // schedule-dependent: give it some chances
 		}
@@ -1386,12 +1855,19 @@ func init() {
 			"through interp.Execute (Output = bytes.Buffer / bufio over a file / *os.File / pipe) and through the goawk binary (stdout = file / pipe); stdout, every file, mid-run " +
 			"snapshots, close() statuses and the end of the run are compared with the destination model. Fault enumeration: for a stdout-only/file program with N output bytes a " +
 			"writer failing at EVERY byte offset 0..N (unbuffered, bufio 16/4096/65536), strace ENOSPC injection into every write(2) to the stdout file, vanished pipe readers. " +
-			"Non-trivial = a history that writes to at least two destinations (or a fault program with N>0); distinct by monitor+output+program text",
+			"Non-trivial = a history that writes to at least two destinations (or a fault program with N>0); distinct by monitor+output+program text. " +
+			"Extension: a quarter of the histories run in CSV/TSV output mode (Config.OutputMode / -o / BEGIN{OUTPUTMODE=...}, also switched in mid-run) with print of 1, 2 or 3 arguments " +
+			"(one needing quotes) to up to 5 files, sinks, stdout and /dev/stderr; a quarter in CRLF newline output mode; stdout also through its names /dev/stdout and -. " +
+			"Deterministic families with the real /bin/sh: commands that close their stdin (exec 0<&-, exec 0</dev/null, after one line, by exiting) before the stream is closed " +
+			"or the run ends (marker-file handshake; close() status and the command's result file are read right after close()/after the run), and 11 fixed scenarios " +
+			"(command writing to stderr, ORS/OFS variations, 16 destinations at once in every output mode)",
 		Assumptions: []string{
 			"DST (harness/c13dst/model.go) is the specification: > truncates at open only, >> never, one name = one stream until close, everything delivered at close/end of run also after exit or a run-time error, close() of a command = its exit status",
 			"shared stdout: conservation per producer over disjoint alphabets; order only where the program synchronises (child started after earlier program output; system()/close() return after the child's output) — any interleaving in between is accepted",
 			"don't-care: close()/fflush() results for files and unopened names, getline from a writer (error or non-positive result), what a running command's file holds before close, failing writes of CHILD processes",
 			"a lost update caused by unsynchronised concurrent writers shows only in runs where the schedule produces it; the race detector reports the race itself on observed executions",
+			"CSV/TSV output mode as documented in docs/csv.md: print with arguments writes the RFC 4180 encoding of the row (c13dst.CSVRow, written independently of encoding/csv) and a newline, ignoring OFS and ORS; a bare print and printf are unchanged; CRLF newline output mode delivers every \"\\n\" the program prints as \"\\r\\n\"; the names /dev/stdout and - denote standard output itself, /dev/stderr the error stream",
+			"a command that no longer reads its input: whether the rows still buffered reach it is not judged; close() must report its exit status, and close()/the end of the run must have waited for it (the result file it writes last is complete when read immediately afterwards); the order of events is fixed by a marker-file handshake, a 60 s handshake watchdog firing is INCONCLUSIVE",
 		},
 		Explanation:  "fault_enumeration: every byte offset (programs up to 400/3000 bytes; boundary offsets for larger ones) and every write(2) call of each explored program is failed in turn; histories and schedules are explored, not enumerated",
 		NBatches:     func(t core.Tier) int { return c13Tier(t, 16, 64) },
@@ -1400,7 +1876,7 @@ func init() {
 		Floors: func(t core.Tier) map[string]int {
 			m := c13Floors(t)
 			for k, v := range m {
-				if k != "op_kinds" && k != "model_events" && k != "endings" && k != "outputs" {
+				if k != "op_kinds" && k != "model_events" && k != "endings" && k != "outputs" && k != "fixed_scenarios" && k != "fixed_scenario_runs" && k != "csv_row_destinations" {
 					m[k] = v * c13Scale() / 100
 				}
 			}
@@ -1433,5 +1909,12 @@ func c13Floors(t core.Tier) map[string]int {
 		"strace_injections": c13Tier(t, 30, 200), "sigpipe_runs": c13Tier(t, 20, 150), "race_cli_runs": c13Tier(t, 30, 300), "race_api_runs": c13Tier(t, 20, 150),
 		"close_statuses_judged": c13Tier(t, 500, 5000), "snapshots_taken": c13Tier(t, 200, 1800),
 		"histories_exposed_relay": c13Tier(t, 40, 350), "histories_quiet_relay": c13Tier(t, 150, 1200), "histories_with_system_child": c13Tier(t, 300, 2500),
+		// extension: CSV/TSV output mode, CRLF, stream names, commands that give up stdin early, fixed scenarios
+		"csv_mode_histories": c13Tier(t, 120, 1000), "csv_mode_histories_multi_destination": c13Tier(t, 80, 650), "csv_rows_modelled": c13Tier(t, 500, 4000),
+		"crlf_mode_histories": c13Tier(t, 150, 1200), "histories_writing_dev_stderr": c13Tier(t, 60, 500), "csv_row_destinations": 6,
+		"cmd_early_scenarios": c13Tier(t, 150, 1200), "cmd_early_stdin_close_scenarios": c13Tier(t, 90, 720), "cmd_early_close_statuses_judged": c13Tier(t, 35, 280),
+		"cmd_early_result_read_after_run": c13Tier(t, 150, 1200), "cmd_early_flush_failure_seen": c13Tier(t, 20, 160), "cmd_early_variants": 30,
+		"fixed_scenario_runs": 60, "fixed_scenarios": 11,
+		"slow_consumer_runs:slow-cli": c13Tier(t, 10, 56), "slow_consumer_runs:slow-api": c13Tier(t, 5, 28),
 	}
 }
